@@ -674,10 +674,26 @@ impl<TokenIter: Iterator<Item = Result<Token>>> Parser<TokenIter> {
                             *location
                         );
                     }
+                    // a dot needs a datum before it ...
+                    if matches!(tail, DatumList::Empty) {
+                        return located_error!(
+                            SyntaxError::UnexpectedToken(TokenData::Period),
+                            *location
+                        );
+                    }
                     encounter_period = true;
                     continue;
                 }
-                TokenData::RightParen => break,
+                TokenData::RightParen => {
+                    // ... and exactly one datum after it
+                    if encounter_period {
+                        return located_error!(
+                            SyntaxError::UnexpectedToken(TokenData::RightParen),
+                            *location
+                        );
+                    }
+                    break;
+                }
                 _ => {
                     let element = Self::unwrap_non_end(self.current_datum()?)?;
                     match tail {
